@@ -83,3 +83,105 @@ def rustc_check(src, key, keep=False, edition='2021'):
     finally:
         if not keep:
             shutil.rmtree(d, ignore_errors=True)
+
+
+# ------------------------------------------------------------------ nightly `no_core` layout oracle (both pointer widths)
+
+NOCORE_PRELUDE = '''#![feature(no_core, lang_items, auto_traits, intrinsics, rustc_attrs, builtin_syntax, abi_vectorcall)]
+#![no_core]
+#![crate_type = "lib"]
+#![allow(warnings)]
+#[lang = "pointee_sized"] pub trait PointeeSized {}
+#[lang = "meta_sized"]    pub trait MetaSized: PointeeSized {}
+#[lang = "sized"]         pub trait Sized: MetaSized {}
+#[lang = "copy"]          pub trait Copy {}
+#[lang = "freeze"]        unsafe auto trait Freeze {}
+#[rustc_intrinsic] pub const fn size_of<T>() -> usize;
+#[rustc_intrinsic] pub const fn align_of<T>() -> usize;
+#[rustc_intrinsic] #[lang = "offset_of"]
+pub const fn offset_of<T: PointeeSized>(variant: u32, field: u32) -> usize;
+#[repr(u8)] pub enum c_void { __A = 0, __B = 1 }
+'''
+
+TARGETS = {4: 'i686-pc-windows-msvc', 8: 'x86_64-pc-windows-msvc'}
+
+def flat_name(path):
+    return re.sub(r'[^A-Za-z0-9_]', '', path.replace('::', '__'))
+
+def flat_type(ty, ps):
+    """canonical TY string -> a type expression over flat names, valid in the no_core crate"""
+    ty = ty.replace('::std::ffi::c_void', 'c_void')
+    ty = re.sub(r'crate::([A-Za-z0-9_#]+(?:::[A-Za-z0-9_#]+)*)', lambda m: flat_name(m.group(1)), ty)
+    if ps == 8:
+        ty = ABI_RE.sub('extern "C"', ty)
+    ty = ty.replace(';', '; ').replace('->', ' -> ')
+    return ty
+
+def nocore_source(crate, o2_items, ps):
+    """definitions of every emitted struct / enum (flat names, no derives / impls) + the declared extern types,
+    with assertions: compiler layout == the layout model (`rustlay`) and == what pyxis resolved (O2)"""
+    from .rustlay import LayoutError
+    out = [NOCORE_PRELUDE]
+    nassert = 0
+    for pth, (size, align) in crate.externs.items():
+        out.append('#[repr(C, align(%d))] pub struct %s { _b: [u8; %d] }' % (max(align, 1), flat_name(pth[len('crate::'):]), size))
+    for pth, it in crate.items.items():
+        name = flat_name(pth[len('crate::'):])
+        reprs = list(find(it, 'repr')[1:])
+        if tag(it) == 'struct':
+            flds = ', '.join('%s: %s' % (f[3], flat_type(f[4], ps)) for f in it[6:])
+            out.append('#[repr(%s)] pub struct %s { %s }' % (', '.join(reprs), name, flds))
+        else:
+            rp = reprs[0] if reprs else 'u32'
+            from .props.c08 import BASES
+            bits = BASES.get(rp, (False, 32))[1]
+            signed = BASES.get(rp, (False, 32))[0]
+            vs = []
+            for v in it[6:]:
+                val = v[2][1] if isinstance(v[2], list) else 0
+                u = val % (1 << bits)
+                unsigned_ty = 'u%d' % bits
+                vs.append('%s = 0x%X%s as %s' % (v[1], u, unsigned_ty, rp) if signed else '%s = 0x%X' % (v[1], u))
+            out.append('#[repr(%s)] pub enum %s { %s }' % (rp, name, ', '.join(vs)))
+    for pth, it in crate.items.items():
+        name = flat_name(pth[len('crate::'):])
+        try:
+            size, align, lay = crate.item_layout(pth)
+        except LayoutError:
+            continue
+        out.append('const _: [(); %d] = [(); size_of::<%s>()];' % (size, name))
+        out.append('const _: [(); %d] = [(); align_of::<%s>()];' % (align, name))
+        nassert += 2
+        for (fname, off, fsz) in lay:
+            out.append('const _: [(); %d] = [(); builtin # offset_of(%s, %s)];' % (off, name, fname))
+            nassert += 1
+        key = tuple(pth[len('crate::'):].split('::'))
+        o2 = o2_items.get(key)
+        if o2 is not None:
+            out.append('const _: [(); %d] = [(); size_of::<%s>()];  // pyxis resolved size' % (o2[4], name))
+            out.append('const _: [(); %d] = [(); align_of::<%s>()]; // pyxis resolved alignment' % (o2[5], name))
+            nassert += 2
+    return '\n'.join(out) + '\n', nassert
+
+def nocore_check(src, key, ps):
+    d = os.path.join(WORK, 'tmp', 'nc_%d_%s' % (os.getpid(), hashlib.sha1(key.encode()).hexdigest()[:12]))
+    os.makedirs(d, exist_ok=True)
+    path = os.path.join(d, 'lib.rs')
+    with open(path, 'w') as f:
+        f.write(src)
+    try:
+        p = subprocess.run(['rustc', '+nightly', '--target', TARGETS[ps], '--emit=metadata', '--error-format=short',
+                            '-o', os.path.join(d, 'lib.rmeta'), path], capture_output=True, text=True, env=ENV, timeout=300)
+        errs = [l for l in p.stderr.split('\n') if 'error' in l and 'aborting' not in l]
+        # map an error line back to the assertion it belongs to
+        lines = src.split('\n')
+        detail = []
+        for e in errs[:6]:
+            m = re.search(r'lib\.rs:(\d+):', e)
+            if m:
+                detail.append('%s   <- %s' % (e.split('error')[-1][:160], lines[int(m.group(1)) - 1].strip()[:140]))
+            else:
+                detail.append(e[:200])
+        return p.returncode == 0, detail
+    finally:
+        shutil.rmtree(d, ignore_errors=True)
